@@ -573,3 +573,57 @@ fn shuffle_impls(rng: &mut Rng, v: &mut Vec<(usize, Vec<usize>)>) {
         v.swap(i, j);
     }
 }
+
+/// Programs of blanket impls over marker traits (`impl<T> P for T where T: Q, T: R`) and a few
+/// concrete impls (`impl P for X`): positive cycles that run through several tables with a shared
+/// unknown, several overlapping cycles, clause order random.  Returns the text, the existential
+/// goals (`exists<T> { T: P }`, one per trait) and the closed goals (`X: P`).
+pub fn blanket_program(rng: &mut Rng) -> (String, Vec<String>, Vec<String>) {
+    let nt = 3 + rng.usize_below(2);
+    let ns = 1 + rng.usize_below(2);
+    let mut s = String::new();
+    for i in 0..nt {
+        s.push_str(&format!("#[marker] trait M{} {{}}\n", i));
+    }
+    for j in 0..ns {
+        s.push_str(&format!("struct X{} {{}}\n", j));
+    }
+    let mut impls: Vec<String> = vec![];
+    for i in 0..nt {
+        let k = 1 + rng.weighted(&[5, 4, 1]);
+        for _ in 0..k {
+            if rng.chance(1, 4) {
+                impls.push(format!("impl M{} for X{} {{}}", i, rng.usize_below(ns)));
+            } else {
+                let nb = 1 + rng.weighted(&[5, 4, 1]);
+                let mut bs: Vec<usize> = (0..nb).map(|_| rng.usize_below(nt)).collect();
+                bs.dedup();
+                if bs.iter().all(|b| *b == i) && rng.chance(2, 3) {
+                    bs = vec![(i + 1) % nt];
+                }
+                let w: Vec<String> = bs.iter().map(|b| format!("T: M{}", b)).collect();
+                impls.push(format!("impl<T> M{} for T where {} {{}}", i, w.join(", ")));
+            }
+        }
+    }
+    // at least one base case
+    if !impls.iter().any(|l| !l.starts_with("impl<T>")) {
+        impls.push(format!("impl M{} for X0 {{}}", rng.usize_below(nt)));
+    }
+    for i in (1..impls.len()).rev() {
+        let j = rng.usize_below(i + 1);
+        impls.swap(i, j);
+    }
+    for l in &impls {
+        s.push_str(l);
+        s.push('\n');
+    }
+    let ex: Vec<String> = (0..nt).map(|i| format!("exists<T> {{ T: M{} }}", i)).collect();
+    let mut gr = vec![];
+    for j in 0..ns {
+        for i in 0..nt {
+            gr.push(format!("X{}: M{}", j, i));
+        }
+    }
+    (s, ex, gr)
+}
